@@ -592,7 +592,7 @@ func needSep(a, b string) bool {
 	return true
 }
 
-var commentWords = []string{"note", "TODO fix", "script Foo {", "\"quoted\"", "}", "if (flag(X)) {", "`", "end", "// nested", "# nested", "ポケモン", "", "caf\uFFFD au lait", "\u2028x", "\uFEFF"}
+var commentWords = []string{"note", "TODO fix", "script Foo {", "\"quoted\"", "}", "if (flag(X)) {", "`", "end", "// nested", "# nested", "ポケモン", "", "caf\uFFFD au lait", "\u2028x", "\uFEFF", "2 potions are handed out below", "100 steps", "7 \"other.pory\"", "line 3", "pasted note:\rgoto(Elsewhere)", "cr\r"}
 
 // Layout renders the lexemes to text, recording positions.
 func (p *Printed) Layout(o LayoutOpts) {
